@@ -641,3 +641,873 @@ Proof.
   replace fuel with (S (S (S (loop_fuel (fuel - 47))))) by (unfold loop_fuel, body_fuel; lia).
   apply ir_encoder_append_nnbi_fuel; auto. unfold loop_fuel, body_fuel. lia.
 Qed.
+
+(* ------------------------------------------------------------------ *)
+(** ** decoder_read_bit, compositional *)
+
+Definition rbit_p (s : cur) : Z := match decoder_free s 1 with COk (_, p) => p | _ => 0 end.
+
+Lemma body_read_bit m b sz ps : in_s64 sz = true -> in_s64 ps = true ->
+  exec_list helpers_ir (body_fuel + m)
+    [("self_p", cursor_val b sz ps); ("pos", VUndef); ("value", VUndef)]%string
+    (f_body (fn_of "decoder_read_bit")) =
+  match read_bit (mkCur b sz ps) with
+  | COk (s', x) => ROk ([("self_p", cur_val s'); ("pos", VInt (rbit_p (mkCur b sz ps))); ("value", VInt x)]%string,
+                        FReturn (Some x))
+  | COob => RFail FOob | CUb => RFail FUb end.
+Proof.
+  intros Hsz Hps. unfold rbit_p, cur_val, read_bit, decoder_free, alloc_gen.
+  pose proof (quot8_in_s64 _ Hps) as Q8.
+  step2.
+  destruct (in_s64 (ps + 1)) eqn:R; [|step2; reflexivity].
+  step2.
+  destruct (ps + 1 <=? sz) eqn:L.
+  - step2. rewrite R. step2. rewrite !(s64_id ps Hps), ?(s64_id _ R). rewrite Z.geb_leb.
+    destruct (0 <=? ps) eqn:P.
+    + destruct (rem8_facts ps ltac:(lia)) as (S7 & SH).
+      step2. rewrite Q8. step2. rewrite vget_bytes_cbn.
+      destruct (rd b (ps ÷ 8)) as [x| |] eqn:Rd; [|step2; reflexivity|step2; reflexivity].
+      step2. rewrite Q8. step2. rewrite S7. step2. rewrite SH. step2.
+      rewrite !conv_I32_land1. reflexivity.
+    + step2. reflexivity.
+  - step2. unfold abort, EOUTOFDATA. cbn [size]. rewrite !Z.geb_leb.
+    destruct (0 <=? sz) eqn:G; step2; rewrite ?(s64_id sz), ?(s64_id ps) by auto; reflexivity.
+Qed.
+
+Lemma land_1_range x : 0 <= Z.land x 1 <= 1.
+Proof.
+  replace (Z.land x 1) with (x mod 2); [lia|].
+  change 1 with (Z.ones 1). rewrite Z.land_ones by lia. reflexivity.
+Qed.
+
+Lemma read_bit_val s s' x : read_bit s = COk (s', x) -> 0 <= x <= 1.
+Proof.
+  unfold read_bit. destruct (decoder_free s 1) as [[s1 p]| |]; cbn [cbind]; try discriminate.
+  destruct (p >=? 0).
+  - destruct (rd (buf s1) (p ÷ 8)); cbn [cbind]; try discriminate.
+    intros H; inversion H; subst. apply land_1_range.
+  - intros H; inversion H; subst. lia.
+Qed.
+
+Lemma read_bit_s64 s s' x : read_bit s = COk (s', x) ->
+  in_s64 (size s) = true -> in_s64 (pos s) = true ->
+  in_s64 (size s') = true /\ in_s64 (pos s') = true /\ buf s' = buf s.
+Proof.
+  unfold read_bit, decoder_free, alloc_gen. intros H Hs Hp.
+  destruct (negb (in_s64 (pos s + s64 (u64 1)))) eqn:R; [discriminate|].
+  apply negb_false_iff in R.
+  destruct (pos s + s64 (u64 1) <=? size s) eqn:L; cbn [cbind] in H.
+  - destruct (pos s >=? 0).
+    + cbn [buf] in H. destruct (rd (buf s) (pos s ÷ 8)); cbn [cbind] in H; try discriminate.
+      inversion H; subst; cbn; auto.
+    + inversion H; subst; cbn; auto.
+  - change (- EOUTOFDATA >=? 0) with false in H. cbv iota in H. inversion H; subst.
+    unfold abort. destruct (size s >=? 0); cbn; auto.
+Qed.
+
+Lemma call_read_bit m e x b sz ps :
+  lookup x e = Some (cursor_val b sz ps) -> in_s64 sz = true -> in_s64 ps = true ->
+  call helpers_ir (S (body_fuel + m)) e "decoder_read_bit" [ARef (PVar x)] =
+  match read_bit (mkCur b sz ps) with
+  | COk (s', v) => match update x (cur_val s') e with
+                   | Some e' => ROk (e', Some v) | None => RFail (FStuck "update") end
+  | COob => RFail FOob | CUb => RFail FUb end.
+Proof.
+  intros Hx Hsz Hps.
+  pose proof (body_read_bit m b sz ps Hsz Hps) as HB.
+  remember (body_fuel + m)%nat as M eqn:EM.
+  assert (HM : (1 <= M)%nat) by (subst M; unfold body_fuel; lia).
+  rewrite call_S. unfold call_body.
+  change (lookup "decoder_read_bit" helpers_ir) with (Some (fn_of "decoder_read_bit")).
+  cbv iota beta.
+  change (f_params (fn_of "decoder_read_bit")) with [("self_p", PByRef)]%string.
+  change (f_locals (fn_of "decoder_read_bit")) with [("pos", VUndef); ("value", VUndef)]%string.
+  change (f_ret (fn_of "decoder_read_bit")) with (Some I32).
+  wcbn. rewrite (resolve_PVar _ M e x HM). wcbn.
+  unfold env_get at 1. rewrite Hx. wcbn.
+  rewrite HB.
+  destruct (read_bit {| buf := b; size := sz; pos := ps |}) as [[s' v]| |] eqn:RB; [|reflexivity|reflexivity].
+  wcbn. unfold env_set. rewrite Hx. wcbn.
+  destruct (update x (cur_val s') e); wcbn; [|reflexivity].
+  rewrite conv_I32_id; [reflexivity|].
+  pose proof (read_bit_val _ _ _ RB). unfold in_range. cbn [ity_signed ity_bits ity_min ity_max].
+  change (2 ^ (32 - 1)) with 2147483648. lia.
+Qed.
+
+(* ------------------------------------------------------------------ *)
+(** ** decoder_read_non_negative_binary_integer *)
+
+Lemma exec_SAssign prog n e p t a :
+  exec prog (S n) e (SAssign p t a) =
+  let^ (e1, z) := eval prog n e a in
+  let^ (e2, xs) := resolve prog n e1 p in
+  let^ e3 := env_set e2 (fst xs) (snd xs) (VInt (conv t z)) in
+  ROk (e3, FNormal).
+Proof. reflexivity. Qed.
+
+Lemma eval_EBin prog n e op t a b :
+  eval prog (S n) e (EBin op t a b) =
+  let^ (e1, za) := eval prog n e a in
+  let^ (e2, zb) := eval prog n e1 b in
+  let^ r := eval_bin op t za zb in ROk (e2, r).
+Proof. reflexivity. Qed.
+
+Lemma eval_ECast prog n e t a :
+  eval prog (S n) e (ECast t a) = let^ (e1, z) := eval prog n e a in ROk (e1, conv t z).
+Proof. reflexivity. Qed.
+
+Lemma u64_u64 z : u64 (u64 z) = u64 z.
+Proof. unfold u64. apply Z.mod_mod. lia. Qed.
+
+Lemma u64_lor x y : u64 (Z.lor (u64 x) (u64 y)) = Z.lor (u64 x) (u64 y).
+Proof.
+  unfold u64. change 18446744073709551616 with (2 ^ 64).
+  rewrite <- !Z.land_ones by lia. rewrite Z.land_lor_distr_l.
+  rewrite <- !Z.land_assoc, Z.land_diag. reflexivity.
+Qed.
+
+Definition rn_s1 : stmt := SAssign (PVar "value") U64 (EBin OShl U64 (ERead (PVar "value")) (EConst 1)).
+Definition rn_s2 : stmt :=
+  SAssign (PVar "value") U64
+    (EBin OOr U64 (ERead (PVar "value")) (ECast U64 (ECall "decoder_read_bit" [ARef (PVar "self_p")]))).
+Definition rn_body : list stmt := [rn_s1; rn_s2].
+
+Lemma rn_body_eq :
+  f_body (fn_of "decoder_read_non_negative_binary_integer") =
+  [SAssign (PVar "value") U64 (EConst 0);
+   SFor [SAssign (PVar "i") U64 (EConst 0)] nnbi_c nnbi_step rn_body;
+   SReturn (Some (ERead (PVar "value")))].
+Proof. reflexivity. Qed.
+
+Definition rn_env (b : list Z) (sz ps n i acc : Z) : env :=
+  [("self_p", cursor_val b sz ps); ("size", VInt n); ("i", VInt i); ("value", VInt acc)]%string.
+
+Definition rloop_fuel (m : nat) : nat := S (S (S (S (S (S (S (body_fuel + m))))))).
+
+Lemma rn_frag_c m b sz ps n i acc :
+  eval helpers_ir (rloop_fuel m) (rn_env b sz ps n i acc) nnbi_c =
+  ROk (rn_env b sz ps n i acc, truth (i <? n)).
+Proof. unfold rloop_fuel, body_fuel. symex. reflexivity. Qed.
+
+Lemma rn_frag_step m b sz ps n i acc : 0 <= i < 18446744073709551615 ->
+  exec_list helpers_ir (rloop_fuel m) (rn_env b sz ps n i acc) nnbi_step =
+  ROk (rn_env b sz ps n (i + 1) acc, FNormal).
+Proof.
+  intros H. unfold rloop_fuel, body_fuel. step2. rewrite !(u64_id (i + 1)) by lia. reflexivity.
+Qed.
+
+Lemma rn_frag_s1 m b sz ps n i acc :
+  exec helpers_ir (S (S (S (S (S (S (body_fuel + m))))))) (rn_env b sz ps n i acc) rn_s1 =
+  ROk (rn_env b sz ps n i (u64 (Z.shiftl acc 1)), FNormal).
+Proof. unfold body_fuel. step2. step2. rewrite u64_u64. reflexivity. Qed.
+
+Lemma rn_loop m n : 0 <= n < 18446744073709551616 ->
+  forall j b sz ps i acc k, in_s64 sz = true -> in_s64 ps = true -> 0 <= i -> i + Z.of_nat j = n ->
+  (j < k)%nat ->
+  for_loop helpers_ir (rloop_fuel m) nnbi_c nnbi_step rn_body k (rn_env b sz ps n i acc) =
+  match read_nnbi_loop j (mkCur b sz ps) acc with
+  | COk (s', r) => ROk (rn_env (buf s') (size s') (pos s') n n r, FNormal)
+  | COob => RFail FOob | CUb => RFail FUb end.
+Proof.
+  intros Hn. induction j as [|j IH]; intros b sz ps i acc k Hsz Hps Hi Hj Hk.
+  - destruct k as [|k]; [lia|]. cbn [for_loop read_nnbi_loop].
+    rewrite rn_frag_c. wcbn.
+    replace (i <? n) with false by lia. cbn [truth Z.eqb buf size pos].
+    replace i with n by lia. reflexivity.
+  - destruct k as [|k]; [lia|]. cbn [for_loop read_nnbi_loop].
+    rewrite rn_frag_c. wcbn.
+    replace (i <? n) with true by lia. cbn [truth Z.eqb].
+    unfold rn_body at 1. unfold rloop_fuel at 1.
+    rewrite exec_list_cons, rn_frag_s1. wcbn.
+    rewrite exec_list_cons. unfold rn_s2 at 1.
+    rewrite exec_SAssign, eval_EBin.
+    erewrite (eval_read_var _ _ _ "value") by reflexivity. wcbn.
+    rewrite eval_ECast, eval_ECall.
+    rewrite (call_read_bit m (rn_env b sz ps n i (u64 (Z.shiftl acc 1))) "self_p" b sz ps eq_refl Hsz Hps).
+    destruct (read_bit {| buf := b; size := sz; pos := ps |}) as [[s1 bit]| |] eqn:RB;
+      [|reflexivity|reflexivity].
+    destruct (read_bit_s64 _ _ _ RB Hsz Hps) as (Hsz1 & Hps1 & _).
+    destruct s1 as [b1 sz1 ps1]. cbn [buf size pos] in *.
+    unfold rn_env at 1. wcbn. cbn [eval_bin]. wcbn.
+    rewrite resolve_PVar by (unfold body_fuel; lia). unfold env_set. wcbn.
+    rewrite exec_list_nil. wcbn.
+    change (conv U64 ?z) with (u64 z). rewrite u64_lor.
+    change [("self_p"%string, cur_val {| buf := b1; size := sz1; pos := ps1 |}); ("size"%string, VInt n);
+            ("i"%string, VInt i); ("value"%string, VInt (Z.lor (u64 (Z.shiftl acc 1)) (u64 bit)))]
+      with (rn_env b1 sz1 ps1 n i (Z.lor (u64 (Z.shiftl acc 1)) (u64 bit))).
+    rewrite (rn_frag_step m) by lia. wcbn.
+    rewrite (IH b1 sz1 ps1 (i + 1) _ k) by (auto; lia). cbn [cbind]. reflexivity.
+Qed.
+
+Lemma read_nnbi_loop_u64 : forall j s acc s' r, u64 acc = acc ->
+  read_nnbi_loop j s acc = COk (s', r) -> u64 r = r.
+Proof.
+  induction j as [|j IH]; intros s acc s' r Ha H; cbn [read_nnbi_loop] in H.
+  - inversion H; subst; auto.
+  - destruct (read_bit s) as [[s1 bit]| |]; cbn [cbind] in H; try discriminate.
+    eapply IH; [|exact H]. apply u64_lor.
+Qed.
+
+Lemma rn_frag_init0 m b sz ps n :
+  exec helpers_ir (S (S (rloop_fuel m)))
+    [("self_p", cursor_val b sz ps); ("size", VInt n); ("i", VUndef); ("value", VUndef)]%string
+    (SAssign (PVar "value") U64 (EConst 0)) =
+  ROk ([("self_p", cursor_val b sz ps); ("size", VInt n); ("i", VUndef); ("value", VInt 0)]%string, FNormal).
+Proof. unfold rloop_fuel, body_fuel. step2. reflexivity. Qed.
+
+Lemma rn_frag_init m b sz ps n :
+  exec_list helpers_ir (rloop_fuel m)
+    [("self_p", cursor_val b sz ps); ("size", VInt n); ("i", VUndef); ("value", VInt 0)]%string
+    [SAssign (PVar "i") U64 (EConst 0)] = ROk (rn_env b sz ps n 0 0, FNormal).
+Proof. unfold rloop_fuel, body_fuel. step2. reflexivity. Qed.
+
+Lemma rn_frag_ret m b sz ps n i r :
+  exec helpers_ir (rloop_fuel m) (rn_env b sz ps n i r) (SReturn (Some (ERead (PVar "value")))) =
+  ROk (rn_env b sz ps n i r, FReturn (Some r)).
+Proof. unfold rloop_fuel, body_fuel. step2. reflexivity. Qed.
+
+Theorem ir_decoder_read_nnbi_fuel : forall m b sz ps n,
+  in_s64 sz = true -> in_s64 ps = true -> 0 <= n < 18446744073709551616 ->
+  (Z.to_nat n < rloop_fuel m)%nat ->
+  run helpers_ir (S (S (S (S (rloop_fuel m))))) "decoder_read_non_negative_binary_integer"%string
+      [cursor_val b sz ps; VInt n] =
+  match read_nnbi (mkCur b sz ps) n with
+  | COk (s', r) => ROk (Some r, [cursor_val (buf s') (size s') (pos s'); VInt n])
+  | COob => RFail FOob | CUb => RFail FUb end.
+Proof.
+  intros m b sz ps n Hsz Hps Hn Hk. unfold run, read_nnbi.
+  change (lookup "decoder_read_non_negative_binary_integer" helpers_ir)
+    with (Some (fn_of "decoder_read_non_negative_binary_integer")).
+  cbv iota beta.
+  change (f_params (fn_of "decoder_read_non_negative_binary_integer"))
+    with [("self_p", PByRef); ("size", PByVal U64)]%string.
+  rcbn. rewrite call_S. unfold call_body.
+  change (lookup "decoder_read_non_negative_binary_integer" helpers_ir)
+    with (Some (fn_of "decoder_read_non_negative_binary_integer")).
+  cbv iota beta.
+  change (f_params (fn_of "decoder_read_non_negative_binary_integer"))
+    with [("self_p", PByRef); ("size", PByVal U64)]%string.
+  change (f_locals (fn_of "decoder_read_non_negative_binary_integer"))
+    with [("i", VUndef); ("value", VUndef)]%string.
+  change (f_ret (fn_of "decoder_read_non_negative_binary_integer")) with (Some U64).
+  rewrite rn_body_eq.
+  rcbn. rewrite resolve_PVar by lia. rcbn.
+  erewrite (eval_read_var _ _ _ "$size") by reflexivity. rcbn.
+  change (conv U64 n) with (u64 n). rewrite (u64_id n) by lia.
+  rewrite exec_list_cons, rn_frag_init0. rcbn.
+  rewrite exec_list_cons, exec_SFor, rn_frag_init. rcbn.
+  rewrite (rn_loop m n Hn (Z.to_nat n) b sz ps 0 0 (rloop_fuel m)) by (auto; lia).
+  destruct (read_nnbi_loop (Z.to_nat n) {| buf := b; size := sz; pos := ps |} 0)
+    as [[s' r]| |] eqn:RL; [|reflexivity|reflexivity].
+  rcbn. rewrite exec_list_cons, rn_frag_ret. unfold rn_env. rcbn.
+  change (conv U64 r) with (u64 r). rewrite (read_nnbi_loop_u64 _ _ _ _ _ eq_refl RL). reflexivity.
+Qed.
+
+Theorem ir_decoder_read_nnbi : forall fuel b sz ps n,
+  in_s64 sz = true -> in_s64 ps = true -> 0 <= n < 18446744073709551616 ->
+  (Z.to_nat n + 52 <= fuel)%nat ->
+  run helpers_ir fuel "decoder_read_non_negative_binary_integer"%string [cursor_val b sz ps; VInt n] =
+  match read_nnbi (mkCur b sz ps) n with
+  | COk (s', r) => ROk (Some r, [cursor_val (buf s') (size s') (pos s'); VInt n])
+  | COob => RFail FOob | CUb => RFail FUb end.
+Proof.
+  intros fuel b sz ps n Hsz Hps Hn Hf.
+  replace fuel with (S (S (S (S (rloop_fuel (fuel - 51)))))) by (unfold rloop_fuel, body_fuel; lia).
+  apply ir_decoder_read_nnbi_fuel; auto. unfold rloop_fuel, body_fuel. lia.
+Qed.
+
+(* ------------------------------------------------------------------ *)
+(** ** encoder_append_bool, decoder_read_bool *)
+
+Lemma exec_SReturn prog n e a :
+  exec prog (S n) e (SReturn (Some a)) = let^ (e1, z) := eval prog n e a in ROk (e1, FReturn (Some z)).
+Proof. reflexivity. Qed.
+
+Definition bool_arg : expr := ECond (ERead (PVar "value")) (EConst 1) (EConst 0).
+
+Lemma bool_frag m b sz ps z :
+  eval helpers_ir (body_fuel + m) [("self_p", cursor_val b sz ps); ("value", VInt z)]%string bool_arg =
+  ROk ([("self_p", cursor_val b sz ps); ("value", VInt z)]%string, if negb (z =? 0) then 1 else 0).
+Proof. unfold body_fuel. step2. destruct (z =? 0); reflexivity. Qed.
+
+Theorem ir_encoder_append_bool_fuel : forall m b sz ps z,
+  in_s64 sz = true -> in_s64 ps = true ->
+  run helpers_ir (S (loop_fuel m)) "encoder_append_bool"%string [cursor_val b sz ps; VInt z] =
+  match append_bool (mkCur b sz ps) (negb (z =? 0)) with
+  | COk s' => ROk (None, [cursor_val (buf s') (size s') (pos s'); VInt z])
+  | COob => RFail FOob | CUb => RFail FUb end.
+Proof.
+  intros m b sz ps z Hsz Hps. unfold run, append_bool.
+  change (lookup "encoder_append_bool" helpers_ir) with (Some (fn_of "encoder_append_bool")).
+  cbv iota beta.
+  change (f_params (fn_of "encoder_append_bool")) with [("self_p", PByRef); ("value", PByVal IBool)]%string.
+  rcbn. rewrite call_S. unfold call_body.
+  change (lookup "encoder_append_bool" helpers_ir) with (Some (fn_of "encoder_append_bool")).
+  cbv iota beta.
+  change (f_params (fn_of "encoder_append_bool")) with [("self_p", PByRef); ("value", PByVal IBool)]%string.
+  change (f_locals (fn_of "encoder_append_bool")) with (@nil (string * val)).
+  change (f_ret (fn_of "encoder_append_bool")) with (@None ity).
+  change (f_body (fn_of "encoder_append_bool"))
+    with [SExpr (ECall "encoder_append_bit" [ARef (PVar "self_p"); AVal I32 bool_arg])].
+  rcbn. rewrite resolve_PVar by (unfold loop_fuel; lia). rcbn.
+  unfold loop_fuel at 1. erewrite (eval_read_var _ _ _ "$value") by reflexivity. rcbn.
+  unfold loop_fuel.
+  rewrite exec_list_cons, exec_SExpr, eval_ECall.
+  set (zb := conv IBool z).
+  rewrite (call_append_bit m [("self_p", cursor_val b sz ps); ("value", VInt zb)]%string "self_p" bool_arg _
+             b sz ps eq_refl Hsz Hps (bool_frag m b sz ps zb)).
+  assert (E : conv I32 (if negb (zb =? 0) then 1 else 0) = if negb (z =? 0) then 1 else 0).
+  { unfold zb, conv. destruct (z =? 0); reflexivity. }
+  rewrite E.
+  destruct (append_bit {| buf := b; size := sz; pos := ps |} (if negb (z =? 0) then 1 else 0))
+    as [s'| |]; [|reflexivity|reflexivity].
+  rcbn. rewrite exec_list_nil. rcbn. reflexivity.
+Qed.
+
+Theorem ir_decoder_read_bool_fuel : forall m b sz ps,
+  in_s64 sz = true -> in_s64 ps = true ->
+  run helpers_ir (S (S (S (S (S (S (body_fuel + m))))))) "decoder_read_bool"%string [cursor_val b sz ps] =
+  match read_bool (mkCur b sz ps) with
+  | COk (s', v) => ROk (Some (if v then 1 else 0), [cursor_val (buf s') (size s') (pos s')])
+  | COob => RFail FOob | CUb => RFail FUb end.
+Proof.
+  intros m b sz ps Hsz Hps. unfold run, read_bool.
+  change (lookup "decoder_read_bool" helpers_ir) with (Some (fn_of "decoder_read_bool")).
+  cbv iota beta.
+  change (f_params (fn_of "decoder_read_bool")) with [("self_p", PByRef)]%string.
+  rcbn. rewrite call_S. unfold call_body.
+  change (lookup "decoder_read_bool" helpers_ir) with (Some (fn_of "decoder_read_bool")).
+  cbv iota beta.
+  change (f_params (fn_of "decoder_read_bool")) with [("self_p", PByRef)]%string.
+  change (f_locals (fn_of "decoder_read_bool")) with (@nil (string * val)).
+  change (f_ret (fn_of "decoder_read_bool")) with (Some IBool).
+  change (f_body (fn_of "decoder_read_bool"))
+    with [SReturn (Some (EBin ONe I32 (ECall "decoder_read_bit" [ARef (PVar "self_p")]) (EConst 0)))].
+  rcbn. rewrite resolve_PVar by lia. rcbn.
+  rewrite exec_list_cons, exec_SReturn, eval_EBin, eval_ECall.
+  rewrite (call_read_bit m [("self_p", cursor_val b sz ps)]%string "self_p" b sz ps eq_refl Hsz Hps).
+  destruct (read_bit {| buf := b; size := sz; pos := ps |}) as [[s' v]| |]; [|reflexivity|reflexivity].
+  rcbn. cbn [eval eval_bin]. rcbn. unfold truth, conv.
+  cbn [cbind]. destruct (v =? 0); reflexivity.
+Qed.
+
+(* ------------------------------------------------------------------ *)
+(** ** encoder_alloc / decoder_free, compositional *)
+
+Ltac body_alloc_tac sz ps n Hsz Hps :=
+  unfold cur_val, encoder_alloc, decoder_free, alloc_gen;
+  step2; rewrite ?u64_u64;
+  destruct (in_s64 (ps + s64 (u64 n))) eqn:R; [|step2; reflexivity];
+  step2;
+  destruct (ps + s64 (u64 n) <=? sz) eqn:L;
+  [ step2; rewrite R; step2; rewrite ?(s64_id ps), ?(s64_id _ R) by auto; reflexivity
+  | step2; unfold abort; cbn [size]; rewrite Z.geb_leb;
+    destruct (0 <=? sz) eqn:G; step2; rewrite ?(s64_id sz), ?(s64_id ps) by auto; reflexivity ].
+
+Lemma body_encoder_alloc m b sz ps n : in_s64 sz = true -> in_s64 ps = true ->
+  exec_list helpers_ir (body_fuel + m)
+    [("self_p", cursor_val b sz ps); ("size", VInt (u64 n)); ("pos", VUndef)]%string
+    (f_body (fn_of "encoder_alloc")) =
+  match encoder_alloc (mkCur b sz ps) n with
+  | COk (s', p) => ROk ([("self_p", cur_val s'); ("size", VInt (u64 n)); ("pos", VInt p)]%string,
+                        FReturn (Some p))
+  | COob => RFail FOob | CUb => RFail FUb end.
+Proof. intros Hsz Hps. body_alloc_tac sz ps n Hsz Hps. Qed.
+
+Lemma body_decoder_free m b sz ps n : in_s64 sz = true -> in_s64 ps = true ->
+  exec_list helpers_ir (body_fuel + m)
+    [("self_p", cursor_val b sz ps); ("size", VInt (u64 n)); ("pos", VUndef)]%string
+    (f_body (fn_of "decoder_free")) =
+  match decoder_free (mkCur b sz ps) n with
+  | COk (s', p) => ROk ([("self_p", cur_val s'); ("size", VInt (u64 n)); ("pos", VInt p)]%string,
+                        FReturn (Some p))
+  | COob => RFail FOob | CUb => RFail FUb end.
+Proof. intros Hsz Hps. body_alloc_tac sz ps n Hsz Hps. Qed.
+
+Lemma alloc_gen_facts err s n s' p : in_s64 err = true -> in_s64 (- err) = true ->
+  alloc_gen err s n = COk (s', p) ->
+  in_s64 (size s) = true -> in_s64 (pos s) = true ->
+  in_s64 (size s') = true /\ in_s64 (pos s') = true /\ in_s64 p = true /\ buf s' = buf s.
+Proof.
+  unfold alloc_gen. intros He He' H Hs Hp.
+  destruct (negb (in_s64 (pos s + s64 (u64 n)))) eqn:R; [discriminate|].
+  apply negb_false_iff in R.
+  destruct (pos s + s64 (u64 n) <=? size s); inversion H; subst; cbn [buf size pos]; auto.
+  unfold abort. destruct (size s >=? 0); cbn [buf size pos]; auto.
+Qed.
+
+Ltac call_alloc_tac f HB Hx Ha :=
+  match goal with |- context [call helpers_ir (S ?M0) ?e _ [ARef (PVar ?x); _]] =>
+  let M := fresh "M" in let EM := fresh "EM" in let HM := fresh "HM" in
+  remember M0 as M eqn:EM;
+  assert (HM : (1 <= M)%nat) by (subst M; unfold body_fuel; lia);
+  rewrite call_S; unfold call_body;
+  change (lookup f helpers_ir) with (Some (fn_of f));
+  cbv iota beta;
+  change (f_params (fn_of f)) with [("self_p", PByRef); ("size", PByVal U64)]%string;
+  change (f_locals (fn_of f)) with [("pos", VUndef)]%string;
+  change (f_ret (fn_of f)) with (Some I64);
+  wcbn; rewrite (resolve_PVar _ M e x HM); wcbn;
+  unfold env_get at 1; rewrite Hx; wcbn; rewrite Ha; wcbn;
+  change (conv U64 ?z) with (u64 z);
+  rewrite HB
+  end.
+
+Lemma call_encoder_alloc m e x a z b sz ps :
+  lookup x e = Some (cursor_val b sz ps) -> in_s64 sz = true -> in_s64 ps = true ->
+  eval helpers_ir (body_fuel + m) e a = ROk (e, z) ->
+  call helpers_ir (S (body_fuel + m)) e "encoder_alloc" [ARef (PVar x); AVal U64 a] =
+  match encoder_alloc (mkCur b sz ps) z with
+  | COk (s', p) => match update x (cur_val s') e with
+                   | Some e' => ROk (e', Some p) | None => RFail (FStuck "update") end
+  | COob => RFail FOob | CUb => RFail FUb end.
+Proof.
+  intros Hx Hsz Hps Ha.
+  pose proof (body_encoder_alloc m b sz ps z Hsz Hps) as HB.
+  call_alloc_tac "encoder_alloc"%string HB Hx Ha.
+  destruct (encoder_alloc {| buf := b; size := sz; pos := ps |} z) as [[s' p]| |] eqn:AL;
+    [|reflexivity|reflexivity].
+  wcbn. unfold env_set. rewrite Hx. wcbn.
+  destruct (update x (cur_val s') e); wcbn; [|reflexivity].
+  destruct (alloc_gen_facts ENOMEM _ _ _ _ eq_refl eq_refl AL Hsz Hps) as (_ & _ & Hp & _).
+  change (conv I64 p) with (s64 p). now rewrite (s64_id p Hp).
+Qed.
+
+Lemma call_decoder_free m e x a z b sz ps :
+  lookup x e = Some (cursor_val b sz ps) -> in_s64 sz = true -> in_s64 ps = true ->
+  eval helpers_ir (body_fuel + m) e a = ROk (e, z) ->
+  call helpers_ir (S (body_fuel + m)) e "decoder_free" [ARef (PVar x); AVal U64 a] =
+  match decoder_free (mkCur b sz ps) z with
+  | COk (s', p) => match update x (cur_val s') e with
+                   | Some e' => ROk (e', Some p) | None => RFail (FStuck "update") end
+  | COob => RFail FOob | CUb => RFail FUb end.
+Proof.
+  intros Hx Hsz Hps Ha.
+  pose proof (body_decoder_free m b sz ps z Hsz Hps) as HB.
+  call_alloc_tac "decoder_free"%string HB Hx Ha.
+  destruct (decoder_free {| buf := b; size := sz; pos := ps |} z) as [[s' p]| |] eqn:AL;
+    [|reflexivity|reflexivity].
+  wcbn. unfold env_set. rewrite Hx. wcbn.
+  destruct (update x (cur_val s') e); wcbn; [|reflexivity].
+  destruct (alloc_gen_facts EOUTOFDATA _ _ _ _ eq_refl eq_refl AL Hsz Hps) as (_ & _ & Hp & _).
+  change (conv I64 p) with (s64 p). now rewrite (s64_id p Hp).
+Qed.
+
+(** the same, for any fuel above [body_fuel] *)
+Lemma fuel_ge M : (body_fuel <= M)%nat -> M = (body_fuel + (M - body_fuel))%nat.
+Proof. lia. Qed.
+
+Lemma call_encoder_alloc_ge M e x a z b sz ps : (body_fuel <= M)%nat ->
+  lookup x e = Some (cursor_val b sz ps) -> in_s64 sz = true -> in_s64 ps = true ->
+  eval helpers_ir M e a = ROk (e, z) ->
+  call helpers_ir (S M) e "encoder_alloc" [ARef (PVar x); AVal U64 a] =
+  match encoder_alloc (mkCur b sz ps) z with
+  | COk (s', p) => match update x (cur_val s') e with
+                   | Some e' => ROk (e', Some p) | None => RFail (FStuck "update") end
+  | COob => RFail FOob | CUb => RFail FUb end.
+Proof. intros H. rewrite (fuel_ge M H). apply call_encoder_alloc. Qed.
+
+Lemma call_decoder_free_ge M e x a z b sz ps : (body_fuel <= M)%nat ->
+  lookup x e = Some (cursor_val b sz ps) -> in_s64 sz = true -> in_s64 ps = true ->
+  eval helpers_ir M e a = ROk (e, z) ->
+  call helpers_ir (S M) e "decoder_free" [ARef (PVar x); AVal U64 a] =
+  match decoder_free (mkCur b sz ps) z with
+  | COk (s', p) => match update x (cur_val s') e with
+                   | Some e' => ROk (e', Some p) | None => RFail (FStuck "update") end
+  | COob => RFail FOob | CUb => RFail FUb end.
+Proof. intros H. rewrite (fuel_ge M H). apply call_decoder_free. Qed.
+
+Ltac fuel_split M H :=
+  rewrite (fuel_ge M H); generalize (M - body_fuel)%nat; clear H; intro; unfold body_fuel.
+
+(* ------------------------------------------------------------------ *)
+(** ** memcpy *)
+
+Lemma rd_nat l k : rd l (Z.of_nat k) = match nth_error l k with Some x => COk x | None => COob end.
+Proof.
+  unfold rd, len. rewrite Nat2Z.id.
+  destruct ((0 <=? Z.of_nat k) && (Z.of_nat k <? Z.of_nat (length l))) eqn:E.
+  - reflexivity.
+  - destruct (nth_error l k) eqn:E2; [|reflexivity].
+    assert (k < length l)%nat by (apply nth_error_Some; congruence). exfalso. lia.
+Qed.
+
+Lemma wr_nat l k v : wr l (Z.of_nat k) v = if (k <? length l)%nat then COk (upd l k v) else COob.
+Proof.
+  unfold wr, len. rewrite Nat2Z.id.
+  destruct ((0 <=? Z.of_nat k) && (Z.of_nat k <? Z.of_nat (length l))) eqn:E;
+  destruct (k <? length l)%nat eqn:E2; try reflexivity; exfalso; lia.
+Qed.
+
+Lemma copy_elems_memcpy src : forall k dst d s i,
+  copy_elems (map VInt dst) (d + i) (map VInt src) (s + i) k =
+  match memcpy_loop k dst (Z.of_nat d) src (Z.of_nat s) (Z.of_nat i) with
+  | COk r => ROk (map VInt r) | COob => RFail FOob | CUb => RFail FUb end.
+Proof.
+  induction k as [|k IH]; intros dst d s i; [reflexivity|].
+  cbn [copy_elems memcpy_loop].
+  rewrite <- !Nat2Z.inj_add, rd_nat, nth_error_map.
+  destruct (nth_error src (s + i)) as [x|]; cbn [option_map cbind]; [|reflexivity].
+  rewrite wr_nat, map_length.
+  destruct (d + i <? length dst)%nat; cbn [cbind]; [|reflexivity].
+  rewrite list_set_map.
+  replace (S (d + i)) with (d + S i)%nat by lia. replace (S (s + i)) with (s + S i)%nat by lia.
+  replace (Z.of_nat i + 1) with (Z.of_nat (S i)) by lia. apply IH.
+Qed.
+
+Lemma copy_elems_memcpy0 dst d src n : 0 <= d -> 0 <= n ->
+  copy_elems (map VInt dst) (Z.to_nat d) (map VInt src) (Z.to_nat 0) (Z.to_nat n) =
+  match memcpy dst d src 0 n with
+  | COk r => ROk (map VInt r) | COob => RFail FOob | CUb => RFail FUb end.
+Proof.
+  intros Hd Hn. unfold memcpy.
+  pose proof (copy_elems_memcpy src (Z.to_nat n) dst (Z.to_nat d) 0 0) as H.
+  rewrite !Nat.add_0_r in H. change (Z.to_nat 0) with 0%nat. rewrite H.
+  rewrite Z2Nat.id by lia. reflexivity.
+Qed.
+
+(* ------------------------------------------------------------------ *)
+(** ** encoder_append_bytes *)
+
+Lemma exec_SIf prog n e c a b :
+  exec prog (S n) e (SIf c a b) =
+  let^ (e1, z) := eval prog n e c in
+  if negb (z =? 0) then exec_list prog n e1 a else exec_list prog n e1 b.
+Proof. reflexivity. Qed.
+
+Definition ab_arg : expr := EBin OMul U64 (EConst 8) (ERead (PVar "size")).
+Definition ab_s1 : stmt :=
+  SAssign (PVar "pos") I64 (ECall "encoder_alloc" [ARef (PVar "self_p"); AVal U64 ab_arg]).
+Definition ab_s2 : stmt := SIf (EBin OLt I64 (ERead (PVar "pos")) (EConst 0)) [SReturn None] [].
+Definition ab_s3 : stmt :=
+  SAssign (PVar "byte_pos") U64 (EBin ODiv U64 (ECast U64 (ERead (PVar "pos"))) (EConst 8)).
+Definition ab_s4 : stmt :=
+  SAssign (PVar "pos_in_byte") U64 (EBin ORem U64 (ECast U64 (ERead (PVar "pos"))) (EConst 8)).
+Definition ab_c5 : expr := EBin OEq U64 (ERead (PVar "pos_in_byte")) (EConst 0).
+Definition ab_memcpy : stmt :=
+  SMemcpy (PField (PVar "self_p") "buf_p") (ERead (PVar "byte_pos")) (PVar "buf_p") (EConst 0)
+          (ERead (PVar "size")).
+Definition ab_idx : expr := EBin OAdd U64 (ERead (PVar "byte_pos")) (ERead (PVar "i")).
+Definition ab_A : stmt :=
+  SAssign (PIndex (PField (PVar "self_p") "buf_p") ab_idx) U8
+    (EBin OOr I32 (ERead (PIndex (PField (PVar "self_p") "buf_p") ab_idx))
+       (EBin OShr I32 (ERead (PIndex (PVar "buf_p") (ERead (PVar "i")))) (ERead (PVar "pos_in_byte")))).
+Definition ab_B : stmt :=
+  SAssign (PIndex (PField (PVar "self_p") "buf_p") (EBin OAdd U64 ab_idx (ECast U64 (EConst 1)))) U8
+    (EBin OShl I32 (ERead (PIndex (PVar "buf_p") (ERead (PVar "i"))))
+       (EBin OSub U64 (EConst 8) (ERead (PVar "pos_in_byte")))).
+Definition ab_body : list stmt := [ab_A; ab_B].
+Definition ab_for : stmt := SFor [SAssign (PVar "i") U64 (EConst 0)] nnbi_c nnbi_step ab_body.
+
+Lemma ab_body_eq :
+  f_body (fn_of "encoder_append_bytes") =
+  [ab_s1; ab_s2; ab_s3; ab_s4; SIf ab_c5 [ab_memcpy] [ab_for]].
+Proof. reflexivity. Qed.
+
+Definition ab_env (c : val) (src : list Z) (n : Z) (vi vp vbp vpib : val) : env :=
+  [("self_p", c); ("buf_p", bytes_val src); ("size", VInt n);
+   ("i", vi); ("pos", vp); ("byte_pos", vbp); ("pos_in_byte", vpib)]%string.
+
+Lemma ab_frag_arg M c src n vi vp vbp vpib : (body_fuel <= M)%nat ->
+  eval helpers_ir M (ab_env c src n vi vp vbp vpib) ab_arg =
+  ROk (ab_env c src n vi vp vbp vpib, u64 (8 * n)).
+Proof. intros H. fuel_split M H. step2. reflexivity. Qed.
+
+Lemma ab_frag_s2 M c src n vi p vbp vpib : (body_fuel <= M)%nat ->
+  exec helpers_ir M (ab_env c src n vi (VInt p) vbp vpib) ab_s2 =
+  ROk (ab_env c src n vi (VInt p) vbp vpib, if p <? 0 then FReturn None else FNormal).
+Proof. intros H. fuel_split M H. step2. destruct (p <? 0); reflexivity. Qed.
+
+Lemma ab_frag_s3 M c src n vi p vbp vpib : (body_fuel <= M)%nat -> 0 <= p -> in_s64 p = true ->
+  exec helpers_ir M (ab_env c src n vi (VInt p) vbp vpib) ab_s3 =
+  ROk (ab_env c src n vi (VInt p) (VInt (p ÷ 8)) vpib, FNormal).
+Proof.
+  intros H Hp Hs. fuel_split M H. step2. step2.
+  assert (E : u64 p = p) by (apply u64_id; unfold in_s64 in Hs; lia). rewrite !E.
+  assert (E2 : u64 (p ÷ 8) = p ÷ 8).
+  { apply u64_id. rewrite Z.quot_div_nonneg by lia. unfold in_s64 in Hs. lia. }
+  rewrite !E2. reflexivity.
+Qed.
+
+Lemma ab_frag_s4 M c src n vi p vbp vpib : (body_fuel <= M)%nat -> 0 <= p -> in_s64 p = true ->
+  exec helpers_ir M (ab_env c src n vi (VInt p) vbp vpib) ab_s4 =
+  ROk (ab_env c src n vi (VInt p) vbp (VInt (Z.rem p 8)), FNormal).
+Proof.
+  intros H Hp Hs. fuel_split M H. step2. step2.
+  assert (E : u64 p = p) by (apply u64_id; unfold in_s64 in Hs; lia). rewrite !E.
+  assert (E2 : u64 (Z.rem p 8) = Z.rem p 8).
+  { apply u64_id. rewrite Z.rem_mod_nonneg by lia. lia. }
+  rewrite !E2. reflexivity.
+Qed.
+
+Lemma ab_frag_c5 M c src n vi vp vbp pib : (body_fuel <= M)%nat ->
+  eval helpers_ir M (ab_env c src n vi vp vbp (VInt pib)) ab_c5 =
+  ROk (ab_env c src n vi vp vbp (VInt pib), truth (pib =? 0)).
+Proof. intros H. fuel_split M H. step2. reflexivity. Qed.
+
+Lemma copy_elems_memcpy1 dst d src n : 0 <= d -> 0 <= n ->
+  copy_elems (map VInt dst) (Z.to_nat d) (map VInt src) 0 (Z.to_nat n) =
+  match memcpy dst d src 0 n with
+  | COk r => ROk (map VInt r) | COob => RFail FOob | CUb => RFail FUb end.
+Proof. intros. now apply copy_elems_memcpy0. Qed.
+
+Lemma ab_frag_memcpy M b sz ps src n vi vp bp vpib : (body_fuel <= M)%nat -> 0 <= bp -> 0 <= n ->
+  exec helpers_ir M (ab_env (cursor_val b sz ps) src n vi vp (VInt bp) vpib) ab_memcpy =
+  match memcpy b bp src 0 n with
+  | COk b' => ROk (ab_env (cursor_val b' sz ps) src n vi vp (VInt bp) vpib, FNormal)
+  | COob => RFail FOob | CUb => RFail FUb end.
+Proof.
+  intros H Hbp Hn. fuel_split M H. step2.
+  replace (n <? 0) with false by lia. replace (bp <? 0) with false by lia. step2.
+  rewrite copy_elems_memcpy1 by lia.
+  destruct (memcpy b bp src 0 n); step2; reflexivity.
+Qed.
+
+Lemma ab_frag_init M c src n vi vp vbp vpib : (body_fuel <= M)%nat ->
+  exec_list helpers_ir M (ab_env c src n vi vp vbp vpib) [SAssign (PVar "i") U64 (EConst 0)] =
+  ROk (ab_env c src n (VInt 0) vp vbp vpib, FNormal).
+Proof. intros H. fuel_split M H. step2. reflexivity. Qed.
+
+Lemma ab_frag_c M c src n i vp vbp vpib : (body_fuel <= M)%nat ->
+  eval helpers_ir M (ab_env c src n (VInt i) vp vbp vpib) nnbi_c =
+  ROk (ab_env c src n (VInt i) vp vbp vpib, truth (i <? n)).
+Proof. intros H. fuel_split M H. symex. reflexivity. Qed.
+
+Lemma ab_frag_step M c src n i vp vbp vpib : (body_fuel <= M)%nat -> 0 <= i < 18446744073709551615 ->
+  exec_list helpers_ir M (ab_env c src n (VInt i) vp vbp vpib) nnbi_step =
+  ROk (ab_env c src n (VInt (i + 1)) vp vbp vpib, FNormal).
+Proof.
+  intros H Hi. fuel_split M H. step2. rewrite !(u64_id (i + 1)) by lia. reflexivity.
+Qed.
+
+Lemma rd_not_ub l i : rd l i <> CUb.
+Proof.
+  unfold rd. destruct ((0 <=? i) && (i <? len l)); [|discriminate].
+  destruct (nth_error l (Z.to_nat i)); discriminate.
+Qed.
+
+Lemma rd_is_byte l i x : bytes_ok l -> rd l i = COk x -> is_byte x.
+Proof.
+  unfold rd. intros B. destruct ((0 <=? i) && (i <? len l)); [|discriminate].
+  destruct (nth_error l (Z.to_nat i)) eqn:E; [|discriminate].
+  intros H; inversion H; subst. apply nth_error_In in E. unfold bytes_ok in B.
+  rewrite Forall_forall in B. auto.
+Qed.
+
+Lemma shl_byte_in_s32 x k : is_byte x -> 0 <= k <= 8 -> in_s32 (Z.shiftl x k) = true.
+Proof.
+  unfold is_byte, in_s32. intros Hx Hk. rewrite Z.shiftl_mul_pow2 by lia.
+  assert (0 < 2 ^ k <= 2 ^ 8) by (split; [apply Z.pow_pos_nonneg; lia | apply Z.pow_le_mono_r; lia]).
+  change (2 ^ 8) with 256 in *. nia.
+Qed.
+
+(** one iteration of the unaligned loop in the model *)
+Definition ab_iter (b : list Z) (bp pib : Z) (src : list Z) (i : Z) : cres (list Z) :=
+  let+ x := rd src i in
+  let+ old := rd b (bp + i) in
+  let+ b1 := wr b (bp + i) (u8 (Z.lor old (Z.shiftr x pib))) in
+  wr b1 (bp + i + 1) (u8 (Z.shiftl x (8 - pib))).
+
+Lemma ab_frag_body M b sz ps src n i vp bp pib : (body_fuel <= M)%nat -> bytes_ok src ->
+  0 <= i < 1152921504606846976 -> 0 <= bp < 1152921504606846976 -> 0 < pib < 8 ->
+  exec_list helpers_ir M (ab_env (cursor_val b sz ps) src n (VInt i) vp (VInt bp) (VInt pib)) ab_body =
+  match ab_iter b bp pib src i with
+  | COk b' => ROk (ab_env (cursor_val b' sz ps) src n (VInt i) vp (VInt bp) (VInt pib), FNormal)
+  | COob => RFail FOob | CUb => RFail FUb end.
+Proof.
+  intros H Bs Hi Hbp Hpib. fuel_split M H. unfold ab_iter.
+  step2. rewrite !(u64_id (bp + i)) by lia. rewrite vget_bytes_cbn.
+  destruct (rd b (bp + i)) as [old| |] eqn:Rb.
+  2:{ step2. destruct (rd src i) eqn:Rs; [reflexivity|reflexivity|destruct (rd_not_ub _ _ Rs)]. }
+  2:{ destruct (rd_not_ub _ _ Rb). }
+  step2. rewrite vget_bytes_cbn.
+  destruct (rd src i) as [x| |] eqn:Rs; [|step2; reflexivity|destruct (rd_not_ub _ _ Rs)].
+  pose proof (rd_is_byte _ _ _ Bs Rs) as Hx.
+  step2. replace ((pib <? 0) || (32 <=? pib)) with false by lia. step2.
+  rewrite !(u64_id (bp + i)) by lia. rewrite vset_bytes_cbn.
+  destruct (wr b (bp + i) (u8 (Z.lor old (Z.shiftr x pib)))) as [b1| |] eqn:W1;
+    [|step2; reflexivity|step2; reflexivity].
+  step2. rewrite vget_bytes_cbn, Rs. step2.
+  rewrite !(u64_id (8 - pib)) by lia.
+  replace ((8 - pib <? 0) || (32 <=? 8 - pib)) with false by lia. step2.
+  replace (x <? 0) with false by (unfold is_byte in Hx; lia). step2.
+  rewrite (shl_byte_in_s32 x (8 - pib) Hx) by lia. step2.
+  rewrite !(u64_id (bp + i)), !(u64_id (bp + i + 1)) by lia. rewrite vset_bytes_cbn.
+  destruct (wr b1 (bp + i + 1) (u8 (Z.shiftl x (8 - pib)))) as [b2| |] eqn:W2; step2; reflexivity.
+Qed.
+
+Lemma append_bytes_loop_S j b bp pib src i :
+  append_bytes_loop (S j) b bp pib src i =
+  let+ b2 := ab_iter b bp pib src i in append_bytes_loop j b2 bp pib src (i + 1).
+Proof.
+  cbn [append_bytes_loop]. unfold ab_iter.
+  destruct (rd src i); cbn [cbind]; auto.
+  destruct (rd b (bp + i)); cbn [cbind]; auto.
+  destruct (wr b (bp + i) _); cbn [cbind]; auto.
+Qed.
+
+Lemma ab_loop M src n vp bp pib sz ps : (body_fuel <= M)%nat -> bytes_ok src ->
+  0 <= n < 1152921504606846976 -> 0 <= bp < 1152921504606846976 -> 0 < pib < 8 ->
+  forall j b i k, 0 <= i -> i + Z.of_nat j = n -> (j < k)%nat ->
+  for_loop helpers_ir M nnbi_c nnbi_step ab_body k
+    (ab_env (cursor_val b sz ps) src n (VInt i) vp (VInt bp) (VInt pib)) =
+  match append_bytes_loop j b bp pib src i with
+  | COk b' => ROk (ab_env (cursor_val b' sz ps) src n (VInt n) vp (VInt bp) (VInt pib), FNormal)
+  | COob => RFail FOob | CUb => RFail FUb end.
+Proof.
+  intros HM Bs Hn Hbp Hpib. induction j as [|j IH]; intros b i k Hi Hj Hk.
+  - destruct k as [|k]; [lia|]. cbn [for_loop append_bytes_loop].
+    rewrite ab_frag_c by auto. wcbn.
+    replace (i <? n) with false by lia. cbn [truth Z.eqb].
+    replace i with n by lia. reflexivity.
+  - destruct k as [|k]; [lia|]. rewrite append_bytes_loop_S. cbn [for_loop].
+    rewrite ab_frag_c by auto. wcbn.
+    replace (i <? n) with true by lia. cbn [truth Z.eqb].
+    rewrite ab_frag_body by (auto; lia).
+    destruct (ab_iter b bp pib src i) as [b2| |]; [|reflexivity|reflexivity].
+    wcbn. rewrite ab_frag_step by (auto; lia). wcbn.
+    rewrite (IH b2 (i + 1) k) by lia. cbn [cbind]. reflexivity.
+Qed.
+
+Definition S8 (L : nat) : nat := S (S (S (S (S (S (S (S L))))))).
+
+Lemma body_append_bytes L b sz ps src n : (body_fuel <= L)%nat ->
+  in_s64 sz = true -> in_s64 ps = true -> bytes_ok src ->
+  0 <= n < 1152921504606846976 -> (Z.to_nat n < L)%nat ->
+  match append_bytes (mkCur b sz ps) src n with
+  | COk s' => exists vi vp vbp vpib fl,
+      exec_list helpers_ir (S8 L) (ab_env (cursor_val b sz ps) src n VUndef VUndef VUndef VUndef)
+        (f_body (fn_of "encoder_append_bytes")) =
+      ROk (ab_env (cur_val s') src n vi vp vbp vpib, fl) /\ (fl = FNormal \/ fl = FReturn None)
+  | COob =>
+      exec_list helpers_ir (S8 L) (ab_env (cursor_val b sz ps) src n VUndef VUndef VUndef VUndef)
+        (f_body (fn_of "encoder_append_bytes")) = RFail FOob
+  | CUb =>
+      exec_list helpers_ir (S8 L) (ab_env (cursor_val b sz ps) src n VUndef VUndef VUndef VUndef)
+        (f_body (fn_of "encoder_append_bytes")) = RFail FUb
+  end.
+Proof.
+  intros HL Hsz Hps Bs Hn Hk.
+  assert (E : exec_list helpers_ir (S8 L) (ab_env (cursor_val b sz ps) src n VUndef VUndef VUndef VUndef)
+                (f_body (fn_of "encoder_append_bytes")) =
+              match encoder_alloc (mkCur b sz ps) (u64 (8 * n)) with
+              | COk (s1, p) =>
+                let e1 := ab_env (cur_val s1) src n VUndef (VInt p) VUndef VUndef in
+                if p <? 0 then ROk (e1, FReturn None)
+                else
+                  let e2 := ab_env (cur_val s1) src n VUndef (VInt p) (VInt (p ÷ 8)) (VInt (Z.rem p 8)) in
+                  if Z.rem p 8 =? 0
+                  then match memcpy (buf s1) (p ÷ 8) src 0 n with
+                       | COk b' => ROk (ab_env (cursor_val b' (size s1) (pos s1)) src n VUndef (VInt p)
+                                          (VInt (p ÷ 8)) (VInt (Z.rem p 8)), FNormal)
+                       | COob => RFail FOob | CUb => RFail FUb end
+                  else match append_bytes_loop (Z.to_nat n) (buf s1) (p ÷ 8) (Z.rem p 8) src 0 with
+                       | COk b' => ROk (ab_env (cursor_val b' (size s1) (pos s1)) src n (VInt n) (VInt p)
+                                          (VInt (p ÷ 8)) (VInt (Z.rem p 8)), FNormal)
+                       | COob => RFail FOob | CUb => RFail FUb end
+              | COob => RFail FOob | CUb => RFail FUb end).
+  { rewrite ab_body_eq. unfold S8.
+    rewrite exec_list_cons. unfold ab_s1 at 1. rewrite exec_SAssign, eval_ECall.
+    assert (H4 : (body_fuel <= S (S (S (S L))))%nat) by lia.
+    rewrite (call_encoder_alloc_ge (S (S (S (S L))))
+               (ab_env (cursor_val b sz ps) src n VUndef VUndef VUndef VUndef)
+               "self_p" ab_arg (u64 (8 * n)) b sz ps
+               H4 eq_refl Hsz Hps (ab_frag_arg _ _ _ _ _ _ _ _ H4)).
+    destruct (encoder_alloc {| buf := b; size := sz; pos := ps |} (u64 (8 * n))) as [[s1 p]| |] eqn:AL;
+      [|reflexivity|reflexivity].
+    destruct (alloc_gen_facts ENOMEM _ _ _ _ eq_refl eq_refl AL Hsz Hps) as (Hsz1 & Hps1 & Hp & Hb1).
+    destruct s1 as [b1 sz1 ps1]. cbn [buf size pos] in *.
+    unfold ab_env at 1. wcbn. rewrite resolve_PVar by lia. unfold env_set. wcbn.
+    change (conv I64 p) with (s64 p). rewrite (s64_id p Hp).
+    change [("self_p"%string, cur_val {| buf := b1; size := sz1; pos := ps1 |});
+            ("buf_p"%string, bytes_val src); ("size"%string, VInt n); ("i"%string, VUndef);
+            ("pos"%string, VInt p); ("byte_pos"%string, VUndef); ("pos_in_byte"%string, VUndef)]
+      with (ab_env (cursor_val b1 sz1 ps1) src n VUndef (VInt p) VUndef VUndef).
+    rewrite exec_list_cons, ab_frag_s2 by lia. wcbn. cbv zeta.
+    destruct (p <? 0) eqn:P; [reflexivity|].
+    rewrite exec_list_cons, ab_frag_s3 by (auto; lia). wcbn.
+    rewrite exec_list_cons, ab_frag_s4 by (auto; lia). wcbn.
+    rewrite exec_list_cons, exec_SIf, ab_frag_c5 by lia. wcbn.
+    rewrite truth_test.
+    assert (Hbp : 0 <= p ÷ 8 < 1152921504606846976).
+    { rewrite Z.quot_div_nonneg by lia. unfold in_s64 in Hp. lia. }
+    destruct (Z.rem p 8 =? 0) eqn:A.
+    - rewrite exec_list_cons, ab_frag_memcpy by lia.
+      destruct (memcpy b1 (p ÷ 8) src 0 n) as [b'| |]; [|reflexivity|reflexivity].
+      wcbn. rewrite !exec_list_nil. reflexivity.
+    - rewrite exec_list_cons. unfold ab_for at 1. rewrite exec_SFor, ab_frag_init by lia. wcbn.
+      assert (Hpib : 0 < Z.rem p 8 < 8) by (rewrite Z.rem_mod_nonneg in * by lia; lia).
+      rewrite (ab_loop L src n (VInt p) (p ÷ 8) (Z.rem p 8) sz1 ps1 HL Bs Hn Hbp Hpib
+                 (Z.to_nat n) b1 0 L) by lia.
+      destruct (append_bytes_loop (Z.to_nat n) b1 (p ÷ 8) (Z.rem p 8) src 0) as [b'| |];
+        [|reflexivity|reflexivity].
+      wcbn. rewrite !exec_list_nil. reflexivity. }
+  unfold append_bytes. rewrite E. clear E.
+  destruct (encoder_alloc {| buf := b; size := sz; pos := ps |} (u64 (8 * n))) as [[s1 p]| |];
+    cbn [cbind]; [|reflexivity|reflexivity].
+  cbv zeta. destruct (p <? 0).
+  { do 5 eexists. split; [reflexivity|auto]. }
+  destruct (Z.rem p 8 =? 0).
+  - destruct (memcpy (buf s1) (p ÷ 8) src 0 n); cbn [cbind]; [|reflexivity|reflexivity].
+    do 5 eexists. split; [reflexivity|auto].
+  - destruct (append_bytes_loop (Z.to_nat n) (buf s1) (p ÷ 8) (Z.rem p 8) src 0); cbn [cbind];
+      [|reflexivity|reflexivity].
+    do 5 eexists. split; [reflexivity|auto].
+Qed.
+
+Lemma eval_read_var_ge prog M e x z : (2 <= M)%nat -> lookup x e = Some (VInt z) ->
+  eval prog M e (ERead (PVar x)) = ROk (e, z).
+Proof.
+  intros H Hx. destruct M as [|[|M]]; try lia. now apply eval_read_var.
+Qed.
+
+Theorem ir_encoder_append_bytes_fuel : forall L b sz ps src n, (body_fuel <= L)%nat ->
+  in_s64 sz = true -> in_s64 ps = true -> bytes_ok src ->
+  0 <= n < 1152921504606846976 -> (Z.to_nat n < L)%nat ->
+  run helpers_ir (S (S8 L)) "encoder_append_bytes"%string [cursor_val b sz ps; bytes_val src; VInt n] =
+  match append_bytes (mkCur b sz ps) src n with
+  | COk s' => ROk (None, [cursor_val (buf s') (size s') (pos s'); bytes_val src; VInt n])
+  | COob => RFail FOob | CUb => RFail FUb end.
+Proof.
+  intros L b sz ps src n HL Hsz Hps Bs Hn Hk.
+  pose proof (body_append_bytes L b sz ps src n HL Hsz Hps Bs Hn Hk) as HB.
+  unfold run.
+  change (lookup "encoder_append_bytes" helpers_ir) with (Some (fn_of "encoder_append_bytes")).
+  cbv iota beta.
+  change (f_params (fn_of "encoder_append_bytes"))
+    with [("self_p", PByRef); ("buf_p", PByRef); ("size", PByVal U64)]%string.
+  rcbn. rewrite call_S. unfold call_body.
+  change (lookup "encoder_append_bytes" helpers_ir) with (Some (fn_of "encoder_append_bytes")).
+  cbv iota beta.
+  change (f_params (fn_of "encoder_append_bytes"))
+    with [("self_p", PByRef); ("buf_p", PByRef); ("size", PByVal U64)]%string.
+  change (f_locals (fn_of "encoder_append_bytes"))
+    with [("i", VUndef); ("pos", VUndef); ("byte_pos", VUndef); ("pos_in_byte", VUndef)]%string.
+  change (f_ret (fn_of "encoder_append_bytes")) with (@None ity).
+  rcbn. rewrite resolve_PVar by (unfold S8; lia). rcbn.
+  rewrite resolve_PVar by (unfold S8; lia). rcbn.
+  erewrite (eval_read_var_ge _ _ _ "$size") by (unfold S8; try reflexivity; lia). rcbn.
+  change (conv U64 n) with (u64 n). rewrite (u64_id n) by lia.
+  change [("self_p"%string, cursor_val b sz ps); ("buf_p"%string, bytes_val src); ("size"%string, VInt n);
+          ("i"%string, VUndef); ("pos"%string, VUndef); ("byte_pos"%string, VUndef);
+          ("pos_in_byte"%string, VUndef)]
+    with (ab_env (cursor_val b sz ps) src n VUndef VUndef VUndef VUndef).
+  destruct (append_bytes {| buf := b; size := sz; pos := ps |} src n) as [s'| |].
+  - destruct HB as (vi & vp & vbp & vpib & fl & -> & Hfl). unfold ab_env. rcbn.
+    destruct Hfl as [-> | ->]; reflexivity.
+  - rewrite HB. reflexivity.
+  - rewrite HB. reflexivity.
+Qed.
+
+Theorem ir_encoder_append_bytes : forall fuel b sz ps src n,
+  in_s64 sz = true -> in_s64 ps = true -> bytes_ok src ->
+  0 <= n < 1152921504606846976 -> (Z.to_nat n + 50 <= fuel)%nat ->
+  run helpers_ir fuel "encoder_append_bytes"%string [cursor_val b sz ps; bytes_val src; VInt n] =
+  match append_bytes (mkCur b sz ps) src n with
+  | COk s' => ROk (None, [cursor_val (buf s') (size s') (pos s'); bytes_val src; VInt n])
+  | COob => RFail FOob | CUb => RFail FUb end.
+Proof.
+  intros fuel b sz ps src n Hsz Hps Bs Hn Hf.
+  replace fuel with (S (S8 (fuel - 9))) by (unfold S8; lia).
+  apply ir_encoder_append_bytes_fuel; auto; unfold body_fuel; lia.
+Qed.
